@@ -66,6 +66,9 @@ func genNsBytes(r *rng, n int, tier string, emit func(J)) {
 			}
 			s = string(b)
 		}
+		if r.p(15) {
+			s = strings.ReplaceAll(s, "\n", "\r\n")
+		}
 		emit(J{"b64": base64.StdEncoding.EncodeToString([]byte(s))})
 	}
 }
@@ -76,6 +79,9 @@ func execNsBytes(in J) J {
 	go func() {
 		done <- safeExec(func(J) J {
 			_, err := compiler.Compile(string(raw))
+			if err != nil {
+				_ = err.Error() // reporting the error is part of answering: rendering it must not crash either
+			}
 			return J{"ok": err == nil}
 		}, in)
 	}()
